@@ -6,10 +6,11 @@ import pipeline
 import talgen
 
 PID = 'C18'
-PROOF_MODULES = ['ChamProofs.Props.C18']
+PROOF_MODULES = ['ChamProofs.Props.C18', 'ChamProofs.Ties']
 THEOREMS = ['ChamVerif.C18_names_allowed', 'ChamVerif.C18_language_attr_dropped', 'ChamVerif.C18_only_language_dropped',
             'ChamVerif.C18_others_preserved', 'ChamVerif.C18_data_ordinary_untouched', 'ChamVerif.C18_data_control_is_language',
-            'ChamVerif.C18_unpack_prefix_invariant', 'ChamVerif.C18_zip_counterexample', 'ChamVerif.C18_quirk_fixed']
+            'ChamVerif.C18_unpack_prefix_invariant', 'ChamVerif.C18_zip_counterexample', 'ChamVerif.C18_quirk_fixed',
+            'ChamVerif.tie_dropNs', 'ChamVerif.tie_defaultNamespaces']
 LEVEL_TEXT = ('Proved in Lean for every start tag (any attribute list, tal:attributes list and i18n:attributes list): each named entry of '
               'the prepared attribute list is a static attribute that is not dropped, a tal:attributes target or an i18n:attributes name '
               '(C18_names_allowed, invariant over the three phases of prepare_attributes); exactly the attributes whose resolved namespace is a '
@@ -128,12 +129,22 @@ def nselem_case(rng):
         else:
             others[0] = ('tal:define', 'w 2')
     foreign = rng.choice(['', ' data-foo="1"', ' xml:lang="en"'])
-    body = rng.choice(['t', '<b>${x}</b>', 'a<i tal:content="x"/>b'])
-    tag = p + ':' + rng.choice(['block', 'x', 'omit'])
+    # bodies that raise make the tal:on-error fallback run (it rebuilds the element's tags)
+    body = rng.choice(['t', '<b>${x}</b>', 'a<i tal:content="x"/>b', '<b>${nosuch}</b>', 'a<i tal:content="x.nosuch"/>b'])
+    style = rng.choice(['prefix', 'prefix', 'renamed', 'default-ns'])
+    uri = {'tal': TAL, 'metal': METAL, 'i18n': I18N}[p]
+    if style == 'prefix':
+        tag, open_, close, ap = p + ':' + rng.choice(['block', 'x', 'omit']), '', '', p
+    elif style == 'renamed':
+        tag, open_, close, ap = 'q7:' + rng.choice(['block', 'x']), '<div xmlns:q7="%s">' % uri, '</div>', 'q7'
+    else:
+        # an unprefixed element of the language namespace; the prefixed spelling of its statements uses the default prefix
+        tag, open_, close, ap = rng.choice(['zblock', 'zx']), '', '', p
+        foreign = ' xmlns="%s"' % uri + foreign
     pre = '<%s%s' % (tag, foreign) + ''.join(' %s="%s"' % (n, v) for n, v in others)
-    a = pre + ''.join(' %s:%s="%s"' % (p, n, v) for n, v in st) + '>' + body + '</%s>' % tag
-    b = pre + ''.join(' %s="%s"' % (n, v) for n, v in st) + '>' + body + '</%s>' % tag
-    return a, b
+    a = open_ + pre + ''.join(' %s:%s="%s"' % (ap, n, v) for n, v in st) + '>' + body + '</%s>' % tag + close
+    b = open_ + pre + ''.join(' %s="%s"' % (n, v) for n, v in st) + '>' + body + '</%s>' % tag + close
+    return a, b, tag
 
 
 LANG_NEUTRAL = [' tal:define="v 1"', ' tal:condition="True"', ' i18n:domain="d"', ' meta:interpolation="true"', ' metal:define-macro="m1"',
@@ -263,7 +274,7 @@ def correspondence(ctx):
         a, b = scope_tree(ctx.rng, None, ctx.rng.choice([1, 2, 3]))
         cases.append({'src': '<html>%s</html>' % a, 'vars': [], 'objs': [], 'cfg': {'restricted_namespace': False}})
     for _ in range(ctx.budget(150, 4000)):
-        a, b = nselem_case(ctx.rng)
+        a, b, _tag = nselem_case(ctx.rng)
         for s in (a, b):
             cases.append({'src': s, 'vars': [['x', {'str': '<X>'}], ['xs', {'list': [1, 2]}]], 'objs': []})
     pipeline.run_cases(ctx, cases, what='prefix spelling / language attributes')
@@ -325,16 +336,17 @@ def oracle(ctx):
     # namespace-element form
     pairs = [nselem_case(ctx.rng) for _ in range(ctx.budget(400, 12000))]
     vars_ = [['x', {'str': '<X>'}], ['xs', {'list': [1, 2]}]]
-    ra = pipeline.impl_many([{'src': a, 'vars': vars_, 'objs': []} for a, b in pairs])
-    rb = pipeline.impl_many([{'src': b, 'vars': vars_, 'objs': []} for a, b in pairs])
-    for (a, b), x, y in zip(pairs, ra, rb):
+    ra = pipeline.impl_many([{'src': a, 'vars': vars_, 'objs': []} for a, b, tag in pairs])
+    rb = pipeline.impl_many([{'src': b, 'vars': vars_, 'objs': []} for a, b, tag in pairs])
+    for (a, b, tag), x, y in zip(pairs, ra, rb):
         ctx.count('evaluations', 2)
         nt += 1
         hist['ns-element'] = hist.get('ns-element', 0) + 1
         if strip(x) != strip(y):
             ctx.violation('unprefixed statements on an element of the language namespace render differently from prefixed ones',
                           {'prefixed': a, 'unprefixed': b}, expected=strip(x), actual=strip(y))
-        elif x.get('out') is not None and (LEAK_RE.search(x['out']) or re.search(r'</?(?:tal|metal|i18n):', x['out'])):
+        elif x.get('out') is not None and (LEAK_RE.search(x['out']) or re.search(r'</?(?:tal|metal|i18n):', x['out'])
+                                           or re.search(r'</?%s\b' % re.escape(tag), x['out'])):
             ctx.violation('a language element or attribute reaches the output', {'prefixed': a}, actual=x['out'])
     # direct family
     ds = [direct_case(ctx.rng) for _ in range(ctx.budget(1500, 50000))]
